@@ -92,6 +92,10 @@ inductive IqKind
   | resultStray                        -- result nobody waits for
   deriving DecidableEq, Repr
 
+/-- iq-shaped elements that are NOT in jabber:client (foreign, empty or jabber:server namespace) -/
+inductive XKind | getKnown | getUnknown | set | resultPending
+  deriving DecidableEq, Repr
+
 inductive S2Bound | none | plain | smEnabled | smFailed
   deriving DecidableEq, Repr
 
@@ -116,6 +120,9 @@ inductive El
   | smEnabled (resume : Bool) | smFailed | smResumed
   | streamError (seeOtherHost : Bool)
   | streamClose
+  | xiq (k : XKind)                    -- `<iq/>` outside jabber:client
+  | xstanza                            -- `<message/>` / `<presence/>` outside jabber:client
+  | smR | smA                          -- XEP-0198 `<r/>` and `<a h='0'/>`
   deriving DecidableEq, Repr
 
 inductive Ev
@@ -125,6 +132,10 @@ inductive Ev
   | socketDisconnected  -- environment: the connection is gone (cut)
   | recv (e : El)       -- server
   | sendIq              -- application: QXmppOutgoingClient::sendIq
+  | recvWhitespace      -- server: a whitespace keep-alive (XmppSocket hands a null element to the listener)
+  | recvPartial         -- server: the beginning of an element (stays in the read buffer)
+  | closeTail           -- server: the `</stream:stream>` that ends a read whose elements have just been dispatched
+                        -- (`<stream:error>…</stream:error></stream:stream>` in ONE segment = recv streamError, then closeTail)
   deriving DecidableEq, Repr
 
 inductive Kind
@@ -132,7 +143,7 @@ inductive Kind
   | nonSaslQuery | nonSaslAuth (plain : Bool)
   | saslAuth (m : Used) | saslResponse
   | sasl2Auth (m : Used) (bind2 sm resume inactive reqToken fast : Bool) | sasl2Response | sasl2Abort
-  | bind | smEnable | smResume | smReq
+  | bind | smEnable | smResume | smReq | smAck
   | iqReply (error : Bool) | iqRequest (roster : Bool) | presence
   | csiActive | csiInactive
   deriving DecidableEq, Repr
@@ -399,8 +410,23 @@ def idleHandle' (s : St) : El → R
 
 /-- the idle listener: `QXmppOutgoingClient::handleElement`.  No stanza is processed over an unencrypted link if TLS is
 required -/
-def idleHandle (s : St) (e : El) : R :=
+def idleGuarded (s : St) (e : El) : R :=
   if e.isStanza ∧ ¬ s.encrypted ∧ s.cfg.tls = .required then reject s else idleHandle' s e
+
+def idleHandle (s : St) (e : El) : R :=
+  match e with
+  -- not in jabber:client, so the stanza guard does not see them, but `handleElement` processes them all the same:
+  | .xiq .getKnown => sendStanza s (.iqReply false)   -- an extension (version, disco) answers
+  | .xiq .resultPending =>                             -- the IQ manager matches the id
+    if s.pendingIq = 0 then reject s else ({ s with pendingIq := s.pendingIq - 1 }, [.sig (.iqDone false)])
+  | .smR => if s.ackEnabled then (s, [send s .smAck]) else (s, [])
+  | .smA => (s, [])
+  | _ => idleGuarded s e
+
+/-- the XEP-0078 manager looks at the tag name only: an `<iq/>` in any namespace is an IQ (never the expected one) -/
+def El.asIq : El → El
+  | .xiq _ => .iq .resultStray
+  | e => e
 
 def starttlsHandle (s : St) : El → R
   | .proceed true =>
@@ -516,8 +542,8 @@ def dispatch (s : St) (e : El) : R :=
   match s.listener with
   | .idle => idleHandle s e
   | .starttls => starttlsHandle s e
-  | .nonSaslFields => nonSaslHandle s e
-  | .nonSaslResult => nonSaslResultHandle s e
+  | .nonSaslFields => nonSaslHandle s e.asIq
+  | .nonSaslResult => nonSaslResultHandle s e.asIq
   | .sasl m fresh => saslHandle s m fresh e
   | .saslDead => reject s
   | .sasl2 m fresh => sasl2Handle s m fresh e
@@ -561,6 +587,15 @@ def step (s : St) : Ev → R
     else (s, [])
   | .recv e => recv s e
   | .sendIq => sendIq s
+  | .recvWhitespace =>
+    -- every listener returns `Rejected` for the null element: "Unexpected element received.", disconnect
+    if s.conn ≠ .connected ∨ s.wedged then (s, []) else reject s
+  | .recvPartial =>
+    if s.conn ≠ .connected ∨ s.wedged then (s, []) else ({ s with wedged := true }, [])
+  | .closeTail =>
+    -- `streamClosed` → `QXmppOutgoingClient::disconnectFromHost`: forgets the resumption state and closes the socket if it is
+    -- still connected (after a see-other-host in the same read it is not)
+    disconnectFromHost s
 
 def run (s : St) : List Ev → R
   | [] => (s, [])
